@@ -422,7 +422,7 @@ SPECS["C11"]["harness"].append({"component": "limiter", "args": ["--part", "fil"
 
 # end-to-end runs: real nodes on loopback UDP sockets (monitor-only): the search for a concrete failing input when
 # constructor parity or a correspondence breaks in the real constructors / socket tasks
-for _p in ("C03", "C04", "C09", "C10", "C12", "C13", "C14", "C17", "C20"):
+for _p in ("C03", "C04", "C05", "C09", "C10", "C12", "C13", "C14", "C17", "C20"):
     SPECS[_p]["harness"].append({"component": "e2e", "args": ["--focus", _p.lower()], "quick": 24, "thorough": 120, "correspondence": False})
 
 # trusted-base sentences of the round-4 runs, per property that has them
